@@ -117,6 +117,8 @@ def sparql_service_available(endpoint: str) -> bool:
 
 
 def _handle_part(part: str) -> tuple[str, float]:
+    # optional whitespace is allowed around the "," and ";" separators of an Accept header
+    part = "".join(part.split())
     if ";q=" not in part:
         return part, 1.0
     key, q = part.split(";q=", 1)
